@@ -11,7 +11,7 @@ sys.path.insert(0, os.path.dirname(os.path.dirname(os.path.abspath(__file__))))
 import ast
 import z3
 from pyvc import xreal as xr
-from pyvc.numexec import Num, Bool, Unsupported
+from pyvc.numexec import Num, Bool, Unsupported, ANALYSIS
 from pyvc.heap import (HeapExec, HPath, LoopSpec, Ref, NONE, Str, cls_of, SeqRef, RefV, SeqV, strc, str_contains, str_distinct, sort_of)
 from pyvc.hlib import init_heap, emit, frame_goal
 from pyvc.solve import Obl, static, undecided
@@ -228,7 +228,7 @@ def build(run):
     for fq, f in (("engine.Engine.is_ready", verify_is_ready), ("engine.Engine.process/raise_sites", verify_raise_sites)):
         try:
             f(run)
-        except Unsupported as ex_:
+        except ANALYSIS as ex_:
             run.add(undecided(f"{fq}/subset", f"outside the verified subset: {ex_}", fn=fq, meta={"replay": rp}))
         except NotFound as ex_:
             run.add(static(f"{fq}/exists", False, f"function under contract not found: {ex_}", fn=fq))
